@@ -56,3 +56,25 @@ func Harness_C12_contains_by_id() {
 	vr.Assert("cell fields from id", vr.And(int(ca.face) == a.Face(), int(ca.level) == a.Level()))
 	vr.Reach("end")
 }
+
+// Bounds of the six face cells and their children contain the cell's own vertices and
+// centre (concrete instances executed in the engine: the level-0 rectangles are
+// hand-written constants per face).
+func Harness_C12_face_cell_bounds_contain_vertices() {
+	vr.Domain("FPX")
+	f := vr.Choose("face", 0, 5)
+	id := CellIDFromFace(f)
+	if vr.Choose("child", 0, 4) > 0 {
+		id = id.Children()[0]
+	}
+	c := CellFromCellID(id)
+	rb, cb := c.RectBound(), c.CapBound()
+	for k := 0; k < 4; k++ {
+		v := c.Vertex(k)
+		vr.Assert("RectBound contains the cell's vertices", rb.ContainsPoint(v))
+		vr.Assert("CapBound contains the cell's vertices", cb.ContainsPoint(v))
+	}
+	vr.Assert("RectBound contains the cell's centre", rb.ContainsPoint(c.Center()))
+	vr.Assert("CapBound contains the cell's centre", cb.ContainsPoint(c.Center()))
+	vr.Reach("end")
+}
